@@ -1,4 +1,5 @@
 import Okane.Lemmas.C13CmdFine
+import Okane.Lemmas.PriceDbFile
 import Okane.Model.CmdText
 /-!
 # The executable command text (`Model/CmdText.lean`, what `drv c13 cmd` runs and `bin/check C13` compares with the
@@ -16,7 +17,14 @@ real binary) **is** the command model of the C13 theorems
   deterministic in the sense of `Props/C13.lean` (`balanceText_det`, …);
 * `run` and the commands of `Props/C13.lean` (`balanceCmd`, `registerCmd`, `accountsScanCmd`, which use the abstract
   error text) print the same standard output and fail at the same entry (`run_balance_cmd`, `run_register_cmd`,
-  `run_accounts_cmd`).
+  `run_accounts_cmd`);
+* shape of the output: `okane accounts` lists every account once in strictly increasing byte order
+  (`accountsLines_strict`), `okane balance` prints one line per account in that order (`balanceRows_strict`);
+* section Exchange: `okane balance -X …` and `okane primitive eval …` (`runX`, `runEval`), price db included: the
+  price-db step of `process` respects the layout relation (`loadRepo_meq`), the text is layout-independent
+  (`xFinish_eq`, `xText_det`, `evalFinish_eq`, `evalText_det`), it is what the driver computes (`runX_layouts`,
+  `runEval_layouts`), and without a price db it is `balanceXOut` / `evalOut` of `Lemmas/C13CmdQuery.lean` up to the
+  wording of the messages (`xFinish_balanceXOut`, `evalFinish_evalOut`).
 -/
 set_option linter.unusedSectionVars false
 set_option linter.unusedSimpArgs false
@@ -151,6 +159,75 @@ theorem registerText_det (acct : Option String) (h1 : Relayout π₁) (h2 : Rela
 
 end Layouts
 
+/-! ## what the list of `okane accounts` looks like -/
+
+/-- the intern store the scan ends with has pairwise distinct names, whatever the layout history. -/
+theorem accountsScr_wf {σ : Nat → Store → Store} (h : StoreRelayout σ) (es : List Entry) :
+    AMap.WF (accountsScr σ {} 0 es).recs :=
+  (accountsScr_meq h h es (StoreEq.refl AMap.WF_nil) 0).wf
+
+/-- **`okane accounts` prints every account once, in strictly increasing byte order.** -/
+theorem accountsLines_strict (es : List Entry) :
+    (CmdText.accountsLines es).Pairwise (fun a b => a < b) := by
+  rw [accountsLines_eq]
+  unfold accountsScanCmd accountsReport
+  have hwf := accountsScr_wf storeRelayout_id es
+  generalize (accountsScr (fun _ s => s) {} 0 es).recs = recs at hwf
+  have hnd : ((recs.filter fun kv => kv.2.isNone).map Prod.fst).Nodup :=
+    (List.Sublist.map _ List.filter_sublist).nodup hwf
+  have hs := List.pairwise_mergeSort (le := leS) keyOrder_leS.trans keyOrder_leS.total
+    ((recs.filter fun kv => kv.2.isNone).map Prod.fst)
+  have hnd' : (((recs.filter fun kv => kv.2.isNone).map Prod.fst).mergeSort leS).Nodup :=
+    (List.mergeSort_perm _ _).nodup_iff.2 hnd
+  generalize ((recs.filter fun kv => kv.2.isNone).map Prod.fst).mergeSort leS = l at hs hnd'
+  induction l with
+  | nil => exact List.Pairwise.nil
+  | cons a l ih =>
+    rw [List.pairwise_cons] at hs ⊢
+    rw [List.nodup_cons] at hnd'
+    refine ⟨fun b hb => ?_, ih hs.2 hnd'.2⟩
+    have hle : a ≤ b := by simpa [leS] using hs.1 b hb
+    have hne : a ≠ b := fun e => hnd'.1 (e ▸ hb)
+    exact Classical.byContradiction fun hn => hne (String.le_antisymm hle (String.not_lt.1 hn))
+
+/-! ## what the lines of `okane balance` look like -/
+
+/-- keys strictly increasing after `sortByKey` with the byte order, for a map with distinct keys. -/
+theorem sortByKey_keys_strict {ν : Type} (m : AMap String ν) (hwf : AMap.WF m) :
+    ((sortByKey leS m).map Prod.fst).Pairwise (fun a b => a < b) := by
+  have hs : (sortByKey leS m).Pairwise (fun x y => leS x.1 y.1 = true) :=
+    List.pairwise_mergeSort (le := fun x y : String × ν => leS x.1 y.1)
+      (fun a b c h1 h2 => keyOrder_leS.trans a.1 b.1 c.1 h1 h2) (fun a b => keyOrder_leS.total a.1 b.1) m
+  have hnd : ((sortByKey leS m).map Prod.fst).Nodup :=
+    ((List.mergeSort_perm m _).map Prod.fst).nodup_iff.2 hwf
+  generalize sortByKey leS m = l at hs hnd
+  induction l with
+  | nil => exact List.Pairwise.nil
+  | cons a l ih =>
+    rw [List.pairwise_cons] at hs
+    rw [List.map_cons, List.nodup_cons] at hnd
+    rw [List.map_cons, List.pairwise_cons]
+    refine ⟨fun b hb => ?_, ih hs.2 hnd.2⟩
+    obtain ⟨kv, hkv, rfl⟩ := List.mem_map.1 hb
+    have hle : a.1 ≤ kv.1 := by simpa [leS] using hs.1 kv hkv
+    have hne : a.1 ≠ kv.1 := fun e => hnd.1 (e ▸ hb)
+    exact Classical.byContradiction fun hn => hne (String.le_antisymm hle (String.not_lt.1 hn))
+
+/-- the rows of `okane balance`: (account, amount), sorted. -/
+def balanceRows (r : DateRange) (st : ProcState) : List (String × Amount String) :=
+  sortByKey leS (balanceNoConv st.ctx.prec st.txns st.bal r)
+
+theorem balanceLines_rows (r : DateRange) (st : ProcState) :
+    CmdText.balanceLines r st = (balanceRows r st).map fun kv => kv.1 ++ ": " ++ showAmount kv.2 := rfl
+
+/-- **`okane balance [--start ..] [--end ..]` prints one line per account, accounts in strictly increasing byte
+order**, for every ledger book-keeping accepts. -/
+theorem balanceRows_strict (r : DateRange) {es : List Entry} {st : ProcState} (h : process es = .ok st) :
+    ((balanceRows r st).map Prod.fst).Pairwise (fun a b => a < b) := by
+  have hw := process_wf es
+  rw [h] at hw
+  exact sortByKey_keys_strict _ (balanceNoConv_meq st.ctx.prec hw.txns hw.bal r).wf
+
 /-! ## the commands of `Props/C13.lean`
 
 `balanceCmd` / `registerCmd` carry the abstract error text `bkErrText`; `run` carries the Rust messages.  They print
@@ -191,5 +268,245 @@ theorem run_register_cmd (acct : Option String) {π : Nat → ProcState → Proc
 /-- **`run .accounts` and `accountsScanCmd`**. -/
 theorem run_accounts_cmd {σ : Nat → Store → Store} (h : StoreRelayout σ) (es : List Entry) :
     run .accounts es = .ok (unlines (accountsScanCmd leS σ es)) := run_accounts_layouts h es
+
+/-! ## `okane balance -X …` (with or without `--price-db`)
+
+`CmdText.xFinish` loads the price db the way `report::process` does — the file's commodities are registered in the
+commodity store *before* `to_conversion` resolves the `-X` commodity — and reports the three kinds of failure with the
+Rust messages.  The price repository and the store it builds from related accumulators are related; hence the text
+does not depend on any layout history. -/
+section Exchange
+open Okane.Price Okane.Query Okane.PriceDbFile
+
+/-- store and repository after the price-db step of `process`. -/
+def LoadedEq (p p' : Store × Builder String) : Prop := StoreEq p.1 p'.1 ∧ RepoEq p.2 p'.2
+
+theorem canon_meq {s s' : Store} (h : StoreEq s s') (n : String) : canon s n = canon s' n := by
+  unfold canon; rw [h.resolve n]
+
+theorem eventsOf_meq {s s' : Store} (h : StoreEq s s') (rs : List PriceRec) : eventsOf s rs = eventsOf s' rs := by
+  unfold eventsOf
+  apply List.map_congr_left
+  intro r _
+  rw [canon_meq h, canon_meq h]
+
+theorem storeAfter_meq (rs : List PriceRec) : ∀ {s s' : Store}, StoreEq s s' →
+    StoreEq (storeAfter s rs) (storeAfter s' rs) := by
+  induction rs with
+  | nil => intro s s' h; exact h
+  | cons r rs ih =>
+    intro s s' h
+    simp only [storeAfter, List.foldl_cons]
+    exact ih ((h.ensure r.target).2.ensure r.commodity).2
+
+/-- **the price-db step of `process`** (ledger events, then `load_price_db`, then `build`) on related accumulators:
+the same parse error, or related stores and the same repository. -/
+theorem loadRepo_meq (dbText : Option (List Char)) {st st' : ProcState} (h : st ≈ₚ st') :
+    ORel (· = ·) LoadedEq (loadRepo dbText st) (loadRepo dbText st') := by
+  cases dbText with
+  | none =>
+    have h1 := insertAll_meq .ledger h.events (NEq.nil (α := String) (κ := String) (ν := PEntry))
+    simp only [loadRepo]
+    orel_cases' h1, insertAll Source.ledger ([] : Builder String) st.events,
+      insertAll Source.ledger ([] : Builder String) st'.events
+    · exact ⟨h.ctx.commodities, build_meq h1⟩
+    all_goals first | exact h1 | trivial
+  | some text =>
+    simp only [loadRepo]
+    rcases processPriceDb_total st.events text st.ctx.commodities with ⟨rs, b, hp, hb, hr⟩ | ⟨e, hp, hr⟩
+    · rcases processPriceDb_total st'.events text st'.ctx.commodities with ⟨rs', b', hp', hb', hr'⟩ | ⟨e', hp', _⟩
+      · rw [hp] at hp'
+        simp only [Outcome.ok.injEq] at hp'
+        subst hp'
+        rw [hr, hr']
+        have hbb := buildFrom_meq h.events
+          (LRel.of_eq PEvEq.refl (eventsOf_meq h.ctx.commodities rs))
+        rw [hb, hb'] at hbb
+        exact ⟨storeAfter_meq rs h.ctx.commodities, build_meq hbb⟩
+      · rw [hp] at hp'; cases hp'
+    · rw [hr, processPriceDb_of_err hp st'.events st'.ctx.commodities]
+      rfl
+
+/-- **what `okane balance -X …` writes is the same for related endings of book-keeping.** -/
+theorem xFinish_eq {cfg : Cfg String} (hord : OrdOK cfg.ord) (dbText : Option (List Char)) (o : XOpts)
+    {x y : Outcome (Nat × BkErrS) ProcState} (h : ORel PErrEq ProcEq x y) :
+    xFinish cfg dbText o x = xFinish cfg dbText o y := by
+  cases x <;> cases y <;> simp only [ORel] at h <;> try exact h.elim
+  · rename_i st st'
+    have h1 := loadRepo_meq dbText h
+    simp only [xFinish]
+    orel_cases' h1, loadRepo dbText st, loadRepo dbText st'
+    · rename_i p p'
+      obtain ⟨store, repo⟩ := p
+      obtain ⟨store', repo'⟩ := p'
+      obtain ⟨hs, hrp⟩ := h1
+      simp only [] at hs hrp
+      simp only [toConversion_meq hs, h.ctx.prec]
+      cases toConversion store' (some o.exchange) o.historical o.now with
+      | ok conv =>
+        simp only []
+        have he : EnvEq (⟨cfg, repo, leS, leS⟩ : Env String String) ⟨cfg, repo', leS, leS⟩ := ⟨rfl, rfl, rfl, hrp⟩
+        have h2 := balance_meq st'.ctx.prec he ⟨hord, keyOrder_leS, keyOrder_leS⟩ h.txns h.bal ⟨conv, o.range⟩
+        orel_cases h2, Query.balance st'.ctx.prec ⟨cfg, repo, leS, leS⟩ st.txns st.bal ⟨conv, o.range⟩,
+          Query.balance st'.ctx.prec ⟨cfg, repo', leS, leS⟩ st'.txns st'.bal ⟨conv, o.range⟩
+        · simp only [balanceReport_meq keyOrder_leS keyOrder_leS id showEntry h2]
+        all_goals first | exact h2.elim | (subst h2; rfl) | rfl | trivial
+      | err e => rfl
+      | panic s => rfl
+      | fuelOut => rfl
+    all_goals first | exact h1.elim | (subst h1; rfl) | rfl | trivial
+  · rename_i a b
+    obtain ⟨i, e⟩ := a
+    obtain ⟨i', e'⟩ := b
+    obtain ⟨e1, e2⟩ := h
+    simp only at e1 e2; subst e1
+    simp only [xFinish, bkErrMsg_meq e2]
+  · simp only [xFinish, h]
+  · rfl
+
+variable {π π₁ π₂ : Nat → ProcState → ProcState} {ρ ρ₁ ρ₂ : Nat → Nat → LoopSt → LoopSt}
+
+/-- the text of `okane balance -X …` under the layout histories `π`, `ρ`. -/
+def xTextScr (cfg : Cfg String) (dbText : Option (List Char)) (o : XOpts) (π : Nat → ProcState → ProcState)
+    (ρ : Nat → Nat → LoopSt → LoopSt) (es : List Entry) : XResult :=
+  xFinish cfg dbText o (processScr2 π ρ {} 0 es)
+
+/-- **determinism of `okane balance -X …`, price db included**: the text (standard output, or which failure with
+which message) does not depend on the layout histories. -/
+theorem xText_det {cfg : Cfg String} (hord : OrdOK cfg.ord) (dbText : Option (List Char)) (o : XOpts)
+    (h1 : Relayout π₁) (h2 : Relayout π₂) (g1 : ∀ i, Relayout2 (ρ₁ i)) (g2 : ∀ i, Relayout2 (ρ₂ i)) (es : List Entry) :
+    xTextScr cfg dbText o π₁ ρ₁ es = xTextScr cfg dbText o π₂ ρ₂ es :=
+  cmd_det2 (xFinish cfg dbText o) (fun _ _ h => xFinish_eq hord dbText o h) h1 h2 g1 g2 es
+
+/-- **what the driver prints for `-X` is the text of the command model under every layout history.** -/
+theorem runX_layouts {cfg : Cfg String} (hord : OrdOK cfg.ord) (dbText : Option (List Char)) (o : XOpts)
+    (h : Relayout π) (g : ∀ i, Relayout2 (ρ i)) (es : List Entry) :
+    runX cfg dbText o es = xTextScr cfg dbText o π ρ es := by
+  rw [xText_det hord dbText o h relayout_id g (fun _ => relayout2_id) es]
+  unfold xTextScr runX process
+  rw [processScr2_id]
+
+/-! ### relation with `balanceXOut` of `Lemmas/C13CmdQuery.lean`
+
+Without a price db the two agree: same standard output, same failing entry, same kind of failure.  (With a price db
+`balanceXLines` resolves the `-X` commodity in the store of the *ledger*, so it reports `commodity not found` for a
+commodity that only the price db mentions, where the binary — and `xFinish` — convert: observed on the real binary by
+the check's hand-written case.) -/
+
+/-- what is left of a failure when the message is forgotten: the entry of a book-keeping error. -/
+def failIndex : Fail → Option Nat
+  | .book i _ => some i
+  | _ => none
+
+def cmdErrIndex : CmdErr → Option Nat
+  | .book i _ => some i
+  | .query _ => none
+
+theorem xFinish_balanceXOut (cfg : Cfg String) (o : XOpts) (x : Outcome (Nat × BkErrS) ProcState) :
+    (xFinish cfg none o x).mapErr failIndex =
+      ((balanceXOut cfg leS leS id showEntry [] ⟨some o.exchange, o.historical, o.now, o.range⟩ x).map' unlines).mapErr
+        cmdErrIndex := by
+  cases x with
+  | ok st =>
+    simp only [xFinish, balanceXOut, balanceXLines, loadRepo, buildFrom]
+    cases insertAll Source.ledger ([] : Builder String) st.events with
+    | ok b =>
+      simp only [insertAll]
+      cases toConversion st.ctx.commodities (some o.exchange) o.historical o.now with
+      | ok conv =>
+        simp only []
+        cases Query.balance st.ctx.prec ⟨cfg, build b, leS, leS⟩ st.txns st.bal ⟨conv, o.range⟩ <;> rfl
+      | err e => rfl
+      | panic s => rfl
+      | fuelOut => rfl
+    | err e => rfl
+    | panic s => rfl
+    | fuelOut => rfl
+  | err e => obtain ⟨i, e⟩ := e; rfl
+  | panic s => rfl
+  | fuelOut => rfl
+
+/-! ### `okane primitive eval` -/
+
+/-- **what `okane primitive eval …` writes is the same for related endings of book-keeping.** -/
+theorem evalFinish_eq {cfg : Cfg String} (hord : OrdOK cfg.ord) (dbText : Option (List Char)) (expr : Option VExpr)
+    (date : Date) (exchange : Option String) {x y : Outcome (Nat × BkErrS) ProcState} (h : ORel PErrEq ProcEq x y) :
+    evalFinish cfg dbText expr date exchange x = evalFinish cfg dbText expr date exchange y := by
+  cases x <;> cases y <;> simp only [ORel] at h <;> try exact h.elim
+  · rename_i st st'
+    have h1 := loadRepo_meq dbText h
+    simp only [evalFinish]
+    orel_cases' h1, loadRepo dbText st, loadRepo dbText st'
+    · rename_i p p'
+      obtain ⟨store, repo⟩ := p
+      obtain ⟨store', repo'⟩ := p'
+      obtain ⟨hs, hrp⟩ := h1
+      simp only [] at hs hrp
+      cases expr with
+      | none =>
+        simp only []
+        cases exchange with
+        | none => rfl
+        | some ex => simp only [Option.map, hs.resolve ex]
+      | some e =>
+        simp only []
+        have he : EnvEq (⟨cfg, repo, leS, leS⟩ : Env String String) ⟨cfg, repo', leS, leS⟩ := ⟨rfl, rfl, rfl, hrp⟩
+        have h2 := eval_meq he ⟨hord, keyOrder_leS, keyOrder_leS⟩ hs e date exchange
+        orel_cases h2, Query.eval ⟨cfg, repo, leS, leS⟩ store e date exchange,
+          Query.eval ⟨cfg, repo', leS, leS⟩ store' e date exchange
+        · simp only [showAmount_meq h2]
+        all_goals first | exact h2.elim | (subst h2; rfl) | rfl | trivial
+    all_goals first | exact h1.elim | (subst h1; rfl) | rfl | trivial
+  · rename_i a b
+    obtain ⟨i, e⟩ := a
+    obtain ⟨i', e'⟩ := b
+    obtain ⟨e1, e2⟩ := h
+    simp only at e1 e2; subst e1
+    simp only [evalFinish, bkErrMsg_meq e2]
+  · simp only [evalFinish, h]
+  · rfl
+
+/-- the text of `okane primitive eval …` under the layout histories `π`, `ρ`. -/
+def evalTextScr (cfg : Cfg String) (dbText : Option (List Char)) (expr : Option VExpr) (date : Date)
+    (exchange : Option String) (π : Nat → ProcState → ProcState) (ρ : Nat → Nat → LoopSt → LoopSt) (es : List Entry) :
+    XResult :=
+  evalFinish cfg dbText expr date exchange (processScr2 π ρ {} 0 es)
+
+theorem evalText_det {cfg : Cfg String} (hord : OrdOK cfg.ord) (dbText : Option (List Char)) (expr : Option VExpr)
+    (date : Date) (exchange : Option String)
+    (h1 : Relayout π₁) (h2 : Relayout π₂) (g1 : ∀ i, Relayout2 (ρ₁ i)) (g2 : ∀ i, Relayout2 (ρ₂ i)) (es : List Entry) :
+    evalTextScr cfg dbText expr date exchange π₁ ρ₁ es = evalTextScr cfg dbText expr date exchange π₂ ρ₂ es :=
+  cmd_det2 (evalFinish cfg dbText expr date exchange) (fun _ _ h => evalFinish_eq hord dbText expr date exchange h)
+    h1 h2 g1 g2 es
+
+/-- **what the driver prints for `primitive eval` is the text of the command model under every layout history.** -/
+theorem runEval_layouts {cfg : Cfg String} (hord : OrdOK cfg.ord) (dbText : Option (List Char)) (expr : Option VExpr)
+    (date : Date) (exchange : Option String) (h : Relayout π) (g : ∀ i, Relayout2 (ρ i)) (es : List Entry) :
+    runEval cfg dbText expr date exchange es = evalTextScr cfg dbText expr date exchange π ρ es := by
+  rw [evalText_det hord dbText expr date exchange h relayout_id g (fun _ => relayout2_id) es]
+  unfold evalTextScr runEval process
+  rw [processScr2_id]
+
+/-- without a price db, on an expression that parses, `evalFinish` and `evalOut` of `Lemmas/C13CmdQuery.lean` agree
+(same line, same failing entry, same kind of failure). -/
+theorem evalFinish_evalOut (cfg : Cfg String) (expr : VExpr) (date : Date) (exchange : Option String)
+    (x : Outcome (Nat × BkErrS) ProcState) :
+    (evalFinish cfg none (some expr) date exchange x).mapErr failIndex =
+      ((evalOut cfg leS leS showEntry [] expr date exchange x).map' fun l => unlines [l]).mapErr cmdErrIndex := by
+  cases x with
+  | ok st =>
+    simp only [evalFinish, evalOut, evalLine, loadRepo, buildFrom]
+    cases insertAll Source.ledger ([] : Builder String) st.events with
+    | ok b =>
+      simp only [insertAll]
+      cases Query.eval ⟨cfg, build b, leS, leS⟩ st.ctx.commodities expr date exchange <;> rfl
+    | err e => rfl
+    | panic s => rfl
+    | fuelOut => rfl
+  | err e => obtain ⟨i, e⟩ := e; rfl
+  | panic s => rfl
+  | fuelOut => rfl
+
+end Exchange
 
 end Okane.C13
